@@ -49,7 +49,7 @@ Definition ustate_eqb (a b : ustate) : bool :=
 
 (* the model's prediction: None = the generated translation declines (Unmodelled) *)
 Definition predict (p : probe) : option pobs :=
-  match Structure__setattr_nf (undef_heap (probe_class p) (p_eu p) true) (PStr (probe_key p)) (probe_value p) with
+  match Structure__setattr_nf (undef_heap (probe_class p) (p_eu p) true (u_attrs (probe_state p))) (PStr (probe_key p)) (probe_value p) with
   | Raise Unmodelled => None
   | d =>
       let r := run_decision (fun _ _ => true) [] (probe_class p) true (probe_state p) (probe_key p) d in
@@ -64,7 +64,7 @@ Definition pobs_eqb (a b : pobs) : bool :=
 
 (* the guard prefix itself raises (before any descriptor runs): then the exception class is ValueError *)
 Definition prefix_raises (p : probe) : bool :=
-  match Structure__setattr_nf (undef_heap (probe_class p) (p_eu p) true) (PStr (probe_key p)) (probe_value p) with
+  match Structure__setattr_nf (undef_heap (probe_class p) (p_eu p) true (u_attrs (probe_state p))) (PStr (probe_key p)) (probe_value p) with
   | Raise ValueError => true
   | _ => false
   end.
